@@ -43,11 +43,71 @@ def extra(chk):
 
 def extra_all(chk):
     extra(chk)
+    extra_setup(chk)
     for flag in ("LeakSearchIdOnDone", "AbandonKeepsTargetId", "StaleInsertAfterScrub"):
         L.must_fail(chk, flag, "MCConn2_dev_%s.cfg" % flag, "NoLeak")
     chk.rule.append("non-vacuity: the three instances of the model with a fixed defect switched back on (the ID of a search kept "
                     "after SearchResultDone; the target's ID kept by Abandon; a routing entry inserted for a caller who already "
                     "gave up) must each violate NoLeak")
+
+
+def extra_setup(chk):
+    """Bookkeeping on the establishment path: the StartTLS exchange runs in the driver's single-operation mode, before any
+    scenario of the connection lane begins. The establishment machine (spec/Setup.tla; C17 owns it) carries `held`, the IDs
+    the client's bookkeeping holds, with the invariant EstablishedClean; every adversary script of MCSetupEst_dial is played
+    against LdapConnAsync::with_settings, the handle's in-use set is read the moment the call returns, and TraceSetup
+    validates the observed events. Only the `c13:` classes are judged here."""
+    import os, json
+    import common as C
+    import setuplane as S
+    out = os.path.join(chk.dir, "mcest.out")
+    res = C.tlc("MCSetupEst", "MCSetupEst_dial.cfg", out, workers=4, timeout=300, heap="2g")
+    chk.model("MCSetupEst/MCSetupEst_dial.cfg", res)
+    rp = os.path.join(chk.dir, "est-replay.json")
+    ob = os.path.join(chk.dir, "est-obs.ndjson")
+    C.harness("setup-run", ["replay", "est", out, rp, ob], timeout=3000, env={"VERIF_SETUP_DIR": S.workdir(chk), "SETUP_WARMUP": "noverify"})
+    rep = C.load(rp)
+    before = len(chk.problems)
+    kept = {}
+    for m in rep.get("mismatches", []):
+        kept.setdefault(m["key"], []).append(m["case"])
+    for k, n in rep.get("mismatch_by_key", {}).items():
+        if k.startswith("c13:"):
+            chk.problem(k, dict(count=n, cases=kept.get(k, [])[:3]),
+                        "S->I: adversary scripts of MCSetupEst played against LdapConnAsync::with_settings (bookkeeping at return)")
+    others = sorted(k for k in rep.get("mismatch_by_key", {}) if not k.startswith("c13:"))
+    if others:
+        chk.notes.append("establishment: differences owned by C17/C04/C18 (not this property): %s" % ", ".join(others))
+    tout = os.path.join(chk.dir, "tracesetup-est.out")
+    C.validate_records(chk, "TraceSetup", "TraceSetup.cfg", ob, tout, lambda r: "trace:" + S.classify(r),
+                       "I->S: TraceSetup: the observed events are not a behaviour of the establishment machine", timeout=600)
+    # what TraceSetup rejects for another property's reason is that property's
+    keep = []
+    for i, (key, case, source) in enumerate(chk.problems):
+        if i >= before and key.startswith("trace:") and not key.startswith("trace:c13:"):
+            continue
+        keep.append((key, case, source))
+    chk.problems = keep
+    cnt = rep.get("counters", {})
+    chk.evaluations += rep["evaluations"]
+    established = cnt.get("result_ok", 0)
+    chk.extra["establishment_bookkeeping"] = dict(scripts=cnt.get("vectors", 0), established=established,
+                                                  starttls=cnt.get("mode_starttls", 0))
+    if established == 0 or cnt.get("mode_starttls", 0) == 0:
+        chk.tool_error("the establishment replay established no StartTLS connection (vacuous)")
+    S.selftest_fixed(chk, "exchange-id-still-held-when-established",
+                     {"kind": "script",
+                      "cfg": {"mode": "starttls", "verify": True, "connector": "custom", "timeout": "none", "via": "dial", "host": "name", "store": "system"},
+                      "script": {"resp": "success", "rc": 0, "inj": "none", "hs": "trusted"},
+                      "ev": [{"e": "accept"}, {"e": "clear", "k": "starttls"}, {"e": "hello"},
+                             {"e": "result", "r": "ok", "late": False, "held": 1},
+                             {"e": "bindseen", "ch": "tls"}, {"e": "bindresult", "rc": 49}]})
+    for x in (out, ob, tout):
+        if os.path.exists(x):
+            os.remove(x)
+    chk.rule.append("establishment: every adversary script of MCSetupEst_dial played against with_settings; the handle's in-use "
+                    "set is read when the call returns and must be empty (EstablishedClean of spec/Setup.tla, validated by TraceSetup)")
+    S.cleanup(chk)
 
 
 def run(tier):
